@@ -18,7 +18,7 @@ ASSUMPTIONS = [
     "back-off: integer factory parameters as in the signature; max_exponent capped at 20000 for cost",
 ]
 EVAL_COUNTER = "evaluations"
-REQUIRED = ["backoff_evals", "next_evals", "overdue_evals", "delay_until_ahead", "now_before_base", "now_on_grid", "with_scheduled_time", "stored_bucket_probes", "timezone_offset_cases", "wire_conversions"]
+REQUIRED = ["backoff_evals", "next_evals", "overdue_evals", "delay_until_ahead", "now_before_base", "now_on_grid", "with_scheduled_time", "stored_bucket_probes", "timezone_offset_cases", "wire_conversions", "overdue_evals_with_a_ttl_of_zero_or_less"]
 
 US = timedelta(microseconds=1)
 
@@ -284,11 +284,14 @@ def check_job_overdue(ts, ttl, now, out, stats, fps):
     from repid.job import Job
     from rv.sim.clock import pin
 
-    if ttl is not None and ttl.total_seconds() < 1:
-        return
     pin(ts)
     conn = Connection(InMemoryMessageBroker())
-    job = Job("j", ttl=ttl, _connection=conn)
+    if ttl is not None and ttl.total_seconds() < 1:
+        # (the constructor refuses less than a second; the attribute is public)
+        job = Job("j", _connection=conn)
+        job.ttl = ttl
+    else:
+        job = Job("j", ttl=ttl, _connection=conn)
     pin(now)
     stats["evaluations"] += 1
     stats["overdue_evals"] += 1
@@ -439,7 +442,10 @@ def run_case(case):
         rnd = random.Random(case["seed"])
         for _ in range(case["n"]):
             ts = _rand_dt(rnd)
-            ttl = rnd.choice([None, timedelta(seconds=1), timedelta(seconds=1.5), timedelta(seconds=rnd.randint(1, 10**7), microseconds=rnd.randint(0, 999999))])
+            # (a time-to-live of zero - "now or never" - and negative ones are ordinary inputs of the data classes)
+            ttl = rnd.choice([None, timedelta(seconds=1), timedelta(seconds=1.5), timedelta(seconds=rnd.randint(1, 10**7), microseconds=rnd.randint(0, 999999)), timedelta(0), timedelta(0), timedelta(microseconds=1), timedelta(seconds=-1), timedelta(microseconds=-1)])
+            if ttl is not None and ttl <= timedelta(0):
+                stats["overdue_evals_with_a_ttl_of_zero_or_less"] += 1
             if ttl is None:
                 now = ts + timedelta(seconds=rnd.randint(-100, 10**8))
             else:
